@@ -21,6 +21,7 @@ import json
 
 from ..common import rng_for
 from ..impl import access as A
+from ..impl import runner as R
 
 
 def nontrivial(log):
@@ -50,6 +51,40 @@ def summarize(out, log):
     if 'unlock' in log:
         for res in log['unlock'][1]:
             out.count('unlock:' + ('ok' if isinstance(res, list) else str(res)))
+
+
+def long_password_probe(arg):
+    """direct oracle, no model: passwords longer than any primitive's key/block size that share a long prefix must still be told
+    apart (a KDF that silently truncates its input lets a WRONG password unlock).  Creation of such a key may be refused — that is fine."""
+    seed, idx, kdf, plen = arg
+    from .. import common
+    common.use_rebuilt_chunker()
+    r = rng_for(seed, 'C06-longpw', idx)
+    res = {'idx': idx, 'violations': [], 'created': False}
+    prefix = r.randbytes(1).hex().encode() * (plen // 2)
+    prefix = (prefix + b'#' * plen)[:plen]
+    right = prefix + b'-right-tail'
+    wrongs = [prefix + b'-wrong-tail', prefix, prefix + b'-right-tai', prefix + b'-right-tail!']
+    with R.Scratch('c06lp_%d' % idx):
+        be = R.MemBackend()
+        try:
+            repo, key = R.init_repo(be, {'encryption': {'kdf': dict(kdf)}}, password=right, concurrent=1)
+        except Exception as e:  # noqa: BLE001
+            res['refused'] = type(e).__name__
+            return res
+        res['created'] = True
+        try:
+            R.unlock(be, key=key, password=right, concurrent=1)
+        except Exception as e:  # noqa: BLE001
+            res['violations'].append(('access:own-password-rejected', f'a key made with a {len(right)}-byte password ({kdf["name"]}) does not unlock with it: {type(e).__name__}'))
+        for wpw in wrongs:
+            try:
+                R.unlock(be, key=key, password=wpw, concurrent=1)
+            except Exception:  # noqa: BLE001
+                continue
+            res['violations'].append(('access:wrong-password-unlocks', f'key made with a {len(right)}-byte password ({kdf["name"]} KDF) unlocks with a different password sharing its first {plen} bytes'))
+            break
+    return res
 
 
 def run(out, drv, info):
@@ -90,6 +125,14 @@ def run(out, drv, info):
         out.count('keygraph:%d' % len(kinds))
         for res in log['unlock'][1]:
             out.count('unlock:' + ('ok' if isinstance(res, list) else str(res)))
+    # long passwords sharing a long prefix (direct oracle only)
+    lp_args = [(out.seed, i, kdf, plen) for i, (kdf, plen) in enumerate((k, n) for k in A.KDFS for n in (64, 65, 128, 200))]
+    lp = A.run_tasks(long_password_probe, lp_args, 60)
+    for a, res in zip(lp_args, lp):
+        out.case({'long_password': [a[2]['name'], a[3]], 'created': res.get('created'), 'refused': res.get('refused')}, bool(res.get('created')))
+        out.count('longpw:' + ('created' if res.get('created') else 'refused:%s' % res.get('refused')))
+        for sig, what in res.get('violations', []):
+            out.violation(sig, what, {'kind': 'longpw', 'seed': out.seed, 'idx': a[1], 'kdf': a[2], 'prefix_len': a[3]})
     out.extra['worlds'] = len(logs)
     out.extra['keygraphs'] = len(glogs)
 
